@@ -1,5 +1,8 @@
 // ---- POSIX XCU 2.14 special built-ins break / continue / return / exit, plus what bash does outside POSIX's domain.
 //  break n / continue n, n >= 1: "exit from (resume) the n-th enclosing loop": status 0, flow = n-1 further levels after this one.
+//  n greater than the number of enclosing loops: bash leaves (resumes) the outermost one ("If n is greater than the number of
+//  enclosing loops, the outermost enclosing loop shall be exited", POSIX break); outside any loop bash prints "only meaningful in a
+//  loop" and goes on with status 0.  A function body starts with no enclosing loop (bash resets loop_level on a call).
 //  n <= 0: bash prints "loop count out of range", returns 1 and leaves every enclosing loop (breaking = loop_level).
 //  return [n] / exit [n]: "the exit status shall be n ... if n is not specified, the value of $?"; n is reduced to 8 bits
 //  (bash: n & 0377, i.e. Euclidean n mod 256: return -1 -> 255, exit 257 -> 1).
@@ -13,6 +16,8 @@ impl Shell {
     pub uninterp spec fn status(&self) -> u8;
     pub uninterp spec fn in_fn(&self) -> bool;
     pub uninterp spec fn in_src(&self) -> bool;
+    // ghost: how many loops enclose the command in the current function / subshell (bash's loop_level); brush keeps no such count
+    pub uninterp spec fn loop_depth(&self) -> nat;
     #[verifier::external_body]
     pub fn last_exit_status(&self) -> (r: u8) ensures r == self.status() { unimplemented!() }
     #[verifier::external_body]
